@@ -280,6 +280,44 @@ def run(check, repo: Repo) -> None:
                      fail_detail=f"`{unparse(bad_[0])[:70] if bad_ else ''}` changes the angle values before they are used: the reference projects at exactly the requested angles — "
                                  f"e.g. 180° reduced to 0° replaces the mirrored projection by the unmirrored one")
 
+    # ---- R9 the transform length of the filtering step is the padded size (coupled with the filter's layout) --------------------------------------
+    # Explicit padding to `padded_size` (F.pad) fixes the length by itself.  When the length is instead read off the filter (`n=f_filter.shape[k]`), axis k must be the
+    # axis of the filter that holds its `size` samples: decided from the producer's return layout (unsqueeze(0) → [1, size]; view/reshape(… size …) → position of size).
+    ffts_ = [c for c in calls_in(irad) if (call_name(c) or "").endswith("fft.fft") and kwarg(c, "n") is not None]
+    for c in ffts_:
+        nexp = kwarg(c, "n")
+        key9 = "iradon_torch: the projections are transformed at the padded filter length"
+        if isinstance(nexp, ast.Subscript) and isinstance(nexp.value, ast.Attribute) and nexp.value.attr == "shape" and isinstance(nexp.slice, (ast.Constant, ast.UnaryOp)):
+            fname = dotted(nexp.value.value)
+            fdefs = [d_ for d_ in definitions(irad, fname) if isinstance(d_, ast.AST)] if fname else []
+            from_filter = len(fdefs) == 1 and isinstance(fdefs[0], ast.Call) and (call_name(fdefs[0]) or "").endswith("get_fourier_filter_torch")
+            if not from_filter:
+                raise AnalysisError(f"iradon_torch: `n={unparse(nexp)}` is not read off the Fourier filter — not decided")
+            k = ast.literal_eval(nexp.slice)
+            rets_ = [r.value for r in ast.walk(gff) if isinstance(r, ast.Return) and r.value is not None]
+            pos, rank = None, None
+            if len(rets_) == 1 and isinstance(rets_[0], ast.Call) and isinstance(rets_[0].func, ast.Attribute):
+                r_ = rets_[0]
+                if r_.func.attr == "unsqueeze" and r_.args and is_const(r_.args[0], 0):
+                    pos, rank = 1, 2
+                elif r_.func.attr in ("view", "reshape"):
+                    dims = [unparse(a_) for a_ in r_.args]
+                    sz = [i for i, d_ in enumerate(dims) if d_ in ("size", "-1")]
+                    if len(sz) == 1:
+                        pos, rank = sz[0], len(dims)
+            if pos is None:
+                raise AnalysisError("get_fourier_filter_torch: layout of the returned filter not recognised")
+            kk = k if k >= 0 else rank + k
+            check.decide(kk == pos, "C07-R9", key9, f"n = {unparse(nexp)}; the filter is returned with its samples on axis {pos} of {rank}", mod.line(c), definite=True,
+                         fail_detail=f"`n={unparse(nexp)}` reads axis {kk} of the filter, but get_fourier_filter_torch returns its {rank}-d result with the samples on axis {pos}: "
+                                     f"the transform length is {'1' if kk != pos else '?'} instead of the padded size — every projection is truncated and the product still broadcasts silently")
+        elif unparse(nexp) in ("padded_size",):
+            check.holds("C07-R9", key9, "n=padded_size", mod.line(c))
+        else:
+            raise AnalysisError(f"iradon_torch: transform length `n={unparse(nexp)[:40]}` not recognised")
+    if not ffts_:
+        check.holds("C07-R9", "iradon_torch: the projections are transformed at the padded filter length", "explicit zero padding to padded_size (no n= argument)", mod.line(irad), nontrivial=False)
+
     # the port is compared with the reference function by function: a call to a module-level helper that is not one of the recorded functions (and that the inliner
     # could not dissolve — a decorated / cached helper, for instance) hides part of the computation; then nothing is claimed
     from ..core.alpha import pinned_table
